@@ -9,7 +9,7 @@ import json, os, subprocess, sys, tempfile, shutil
 
 ROOT = "/verif"
 NEEDS = json.load(open(os.path.join(ROOT, "seeded", "NEEDS.json")))
-ALSO = {"C03-1": ["C08"], "C03-5": ["C08"], "C13-6": ["C10"], "C18-15": ["C13"]}
+ALSO = {"C03-1": ["C08"], "C03-5": ["C08"], "C13-6": ["C10"], "C18-15": ["C13"], "C01-15": ["C06"]}
 
 args = [a for a in sys.argv[1:] if not a.startswith("--")]
 tier = sys.argv[sys.argv.index("--tier") + 1] if "--tier" in sys.argv else "quick"
